@@ -59,3 +59,23 @@ def register(reg):
         ],
         raises={},
     )
+    _register_dances(reg)
+
+
+def _register_dances(reg):
+    """the two WSGI string 'dances' (PEP 3333: environ text is bytes read as latin-1): encoding then decoding gives the
+    text back; decoding never fails on a WSGI string"""
+    P = "C15,C07"
+    reg.spec("is_latin1(s)", "re_in(s, '[\\\\x00-\\\\xff]*')")
+    reg.contract(
+        "werkzeug/_internal.py:_wsgi_encoding_dance", prop=P, params={"s": "str"}, returns="str", modifies=[], replay="pure",
+        ensures=["is_latin1(result)",
+                 # reading the result the way a WSGI server's string is read gives the original text back
+                 "result.encode('latin1').decode(errors='replace') == s"],
+        raises={"UnicodeEncodeError": "True"},      # text that is not encodable at all (a lone surrogate)
+    )
+    reg.contract(
+        "werkzeug/_internal.py:_wsgi_decoding_dance", prop=P, params={"s": "str"}, returns="str", modifies=[], replay="pure",
+        assumes=["is_latin1(s)"],                     # what PEP 3333 guarantees of environ strings
+        ensures=["True"], raises={},                 # total: undecodable bytes are replaced, never an exception
+    )
